@@ -41,6 +41,12 @@ CHECKS = {
         text="Every and/or formula with <= 4 (thorough 5) leaves over distinct events/flows, arbitrary nesting, as `match` on events, `await` on flows and `when` on flows/events, against all event orders with irrelevant and repeated events (length <= leaves+1, deeper levels sampled in the thorough tier) and both tie-break outcomes: the marker after the statement must appear at exactly the first step at which the formula holds.",
         note="trusted: program rendering, Formula.tla; formulas mentioning the same atom twice are outside the quantifier (replayed, noted, not judged); design-level check of the expansion itself is part of ColangSM",
         design_ref="6/C07"),
+    "C08": dict(
+        category="model_checking", engine="FlowCall",
+        technique="binding rule transcribed in TLA+ (FlowCall.Bind); TLC enumerates signatures x calls x call forms; each replayed as a generated program in the real interpreter (callee echoes its parameters, caller echoes return value and its locals, two sibling instances); echoes judged by TLC",
+        text="All signatures with <= 3 parameters x default patterns x all calls (k positional, any subset of the rest named) over int/str/bool/None/list/dict x 5 call forms (await, parenthesised, start, when, start-group): each parameter gets its positional/named/default value, `$x = await f` gets the returned value, caller and sibling locals stay untouched. Quick = 1/64 partition (about 2.7k programs, partition chosen by seed), thorough = 1/8 (about 19k).",
+        note="trusted: program rendering, FlowCall.tla; malformed calls (surplus positional, parameter named twice, unknown name) are not generated; default expressions are literals",
+        design_ref="6/C08"),
     "C12": dict(
         category="model_checking", engine="CFG",
         technique="TLC reachability over the control-flow graph of every compiled flow (the real compiler's FlowConfig.elements exported as JSON): CFG.tla tracks position, open scopes, failure-handler stack and forks along every path; Colang 1.0 offsets by V1Closed.tla",
